@@ -79,6 +79,11 @@ func (f *fixture) adapt() (*core.Block, *core.StateDiff, error) {
 	return b, sd, nil
 }
 
+func inUnverifiableRange(f fixture, n uint64) bool {
+	ur := f.net.BlockHashMetaInfo.UnverifiableRange
+	return ur != nil && n >= ur[0] && n <= ur[1]
+}
+
 // verifiable says whether juno is expected to verify this fixture's hash (old formats have documented exceptions).
 func (f *fixture) verifiable(b *core.Block, sd *core.StateDiff) bool {
 	ur := f.net.BlockHashMetaInfo.UnverifiableRange
@@ -102,7 +107,7 @@ func TestPropRealBlocksVerifyAndTamperedOnesDoNot(t *testing.T) {
 	if len(fixtures) < 10 {
 		stats.HarnessError("only %d fixture blocks found", len(fixtures))
 	}
-	stats.Check(t, stats.Budget{Quick: 40, Thorough: 1500},
+	stats.Check(t, stats.Budget{Quick: 40, Thorough: 300},
 		"real-network fixture blocks (mainnet, sepolia, sepolia-integration, goerli, goerli2, integration; formats pre-0.7 ... 0.14.x) through core.VerifyBlockHash with both temporary-trie backends: untampered must verify; one field committed in that block's format (number, parent, root, tx hash, tx order, and for >= 0.13.2 timestamp, sequencer, gas prices, receipts, events, state diff) changed must fail; non-trivial = the fixture is verifiable (outside documented unverifiable ranges) and a tamper was applied",
 		func(rt *rapid.T, c *stats.Case) {
 			fx := fixtures[gen.Uniform(rt, len(fixtures), "fixture")]
@@ -134,7 +139,9 @@ func TestPropRealBlocksVerifyAndTamperedOnesDoNot(t *testing.T) {
 				f    func()
 			}
 			tms := []tm{
-				{"number", true, func() { b.Number++ }},
+				// number+1 must not land in the network's documented unverifiable range (e.g. goerli 119801 -> 119802),
+				// where juno skips hash verification by design
+				{"number", !inUnverifiableRange(fx, b.Number+1), func() { b.Number++ }},
 				{"parent-hash", true, func() { b.ParentHash = bump(b.ParentHash) }},
 				{"state-root", true, func() { b.GlobalStateRoot = bump(b.GlobalStateRoot) }},
 				{"tx-count", true, func() { b.TransactionCount++ }},
